@@ -107,7 +107,9 @@ def register(K):
 
 
     # ---- the analyses ---------------------------------------------------------------------------------------------------------
-    K.contract("fickle.Proto.version", params="self: fickle.Proto", returns="int", pure=True, ensures=[])
+    K.contract("fickle.Proto.version", params="self: fickle.Proto", returns="int", pure=True, ensures=[],
+               trusted="never raises: relies on the type invariant of a PROTO opcode's argument (None, an int from pickletools / Proto.create, or bytes), "
+                       "an assumption about how opcodes are constructed; the body (three type tests, int.from_bytes) is pinned")
     K.contract("analysis.DuplicateProtoAnalysis._get_suffix", params="index: int", returns="str", pure=True, ensures=[])
     K.contract("fickle.Interpreter.unused_assignments", params="self: fickle.Interpreter", returns="dict[str,ast.Assign]",
                modifies=["self.stack._stack[]", "self.memory[]", "self.module_body._list[]", "self._var_counter", "self._opcodes",
